@@ -37,7 +37,7 @@ STUBS = ["borrowed mechanism kinetics inside RefSim (update_states / compute_cur
 ASSUMPTIONS = [
     "RefSim scheme assumptions: gates advanced with the voltage at the start of the step, then voltage solved with the advanced gates; "
     "membrane currents enter through the 1e-3 mV secant; non-voltage clamps applied after that step's currents were formed",
-    "clamps of synaptic states and a second clamp of the same state on the same row are not generated (index bookkeeping of edge clamps is outside the documented single-synapse form)",
+    "a second clamp of the same state on the same row and clamps of synaptic *currents* are not generated",
 ]
 
 
@@ -46,7 +46,7 @@ def generate(seed, tier="quick"):
     shape = gen_network_shape(r, r.randint(2, 3), 3, 3, same_layout=r.random() < 0.6) if r.random() < 0.55 else gen_any_shape(r, 3, 3, 3)
     o = stream(seed, "ops")
     Ls = o.randint(3, 14)
-    cfg = {"L": Ls, "channels": o.sample(mech.CHANNELS, o.randint(1, 3)), "synapses": o.sample(mech.SYNAPSES, o.randint(2, 3)), "max_edges": 6}
+    cfg = {"L": Ls, "channels": o.sample(mech.CHANNELS, o.randint(1, 3)), "synapses": o.sample(mech.SYNAPSES, o.randint(2, 3)), "max_edges": 6, "p_syn_clamp": 0.35}
     passive = o.random() < 0.25
     dw = DryWorld(shape)
     ops = []
@@ -247,7 +247,8 @@ def execute(program):
             for k in range(steps):
                 inj = sum(arr[k] for _, arr in ref.externals.get("i", []) if k < len(arr)) * 1e-3 * dt
                 got = float(np.sum(C * (V[:, k + 1] - V[:, k])))
-                if abs(got - inj) > 1e-9 * max(1e-12, abs(inj)) + 1e-18:
+                scale = float(np.sum(C * np.maximum(np.abs(V[:, k + 1]), np.abs(V[:, k]))))  # round-off scale of the sum
+                if abs(got - inj) > 1e-9 * abs(inj) + 1e-11 * scale:
                     w.violate("charge_accounting", f"step {k + 1}: total membrane charge changed by {got:.6e} uC*1e-3, injected I*dt = {inj:.6e}", nidx)
                     return res()
             w.bump("oracle_charge")
@@ -317,7 +318,8 @@ def execute(program):
                     ds = w3.m.select(nodes=[t]).data_stimulate(jnp.asarray(arr), ds)
                 if data_key:
                     for t, arr in ref.externals[data_key]:
-                        dc = w3.m.select(nodes=[t]).data_clamp(data_key, jnp.asarray(arr), dc)
+                        v_ = w3.m.select(nodes=[t]) if data_key in ref.comp_states() else w3.m.select(edges=[t])
+                        dc = v_.data_clamp(data_key, jnp.asarray(arr), dc)
             try:
                 out3 = integ(w3, program, T, data_stimuli=ds, data_clamps=dc)
             except HarnessError:
